@@ -249,6 +249,13 @@ class EditRun:
                 flags.add('global_nonlocal')
             if isinstance(tgt, ast.If) and len(tgt.orelse) == 1 and isinstance(tgt.orelse[0], ast.If):
                 flags.add('target_if_with_lone_if_orelse')
+            import re as _re
+            if _re.search(r';[ \t]*\\\n', self.root.src):
+                flags.add('pre_source_has_semicolon_then_line_continuation')
+            o = op.get('opts') or {}
+            c0 = op.get('code') or {}
+            if o.get('pars') is True and str(c0.get('text', '')).lstrip().startswith('('):
+                flags.add('pars_true_with_parenthesized_source')
             src_lines = self.root.src.split('\n')
             for i, ln in enumerate(src_lines):
                 if ln.rstrip().endswith('\\') and '#' not in ln and (i + 1 >= len(src_lines) or not src_lines[i + 1].strip()):
